@@ -20,7 +20,22 @@ from nauyaca.security.tofu import CertificateChangedError, TOFUDatabase
 _CERTS = {}
 
 
+def expired_cert():
+    import datetime
+    from cryptography.hazmat.primitives import hashes
+    from cryptography.hazmat.primitives.asymmetric import ec
+    from cryptography.x509.oid import NameOID
+    key = ec.generate_private_key(ec.SECP256R1())
+    name = x509.Name([x509.NameAttribute(NameOID.COMMON_NAME, "expired.example")])
+    t0 = datetime.datetime(2020, 1, 1, tzinfo=datetime.timezone.utc)
+    return (x509.CertificateBuilder().subject_name(name).issuer_name(name).public_key(key.public_key()).serial_number(77)
+            .not_valid_before(t0).not_valid_after(t0 + datetime.timedelta(days=30)).sign(key, hashes.SHA256()))
+
+
 def cert(name):
+    if name == "X" and name not in _CERTS:        # a certificate that expired years ago
+        c = expired_cert()
+        _CERTS[name] = (c, c.public_bytes(serialization.Encoding.DER))
     if name not in _CERTS:
         pem, _key = generate_self_signed_cert(f"{name}.example", key_size=2048)
         c = x509.load_pem_x509_certificate(pem)
@@ -221,6 +236,9 @@ def run_history(steps, verify_ssl=False):
 
 
 HISTORIES = [
+    [("get", "A"), ("get", "X")],                       # pinned host presents an EXPIRED other certificate: still a changed certificate
+    [("upload", "A"), ("upload", "X")],
+    [("get", "X"), ("get", "X"), ("get", "A")],         # first use with an expired certificate pins it like any other
     [("get", "A"), ("get", "A"), ("get", "B")],
     [("get", "A"), ("trust", "B"), ("get", "A")],
     [("get", "A"), ("trust", "B"), ("upload", "A")],
